@@ -73,6 +73,22 @@ impl TlsHandshaker {
                     }
                 }
 
+                // Without a single trust anchor (no system certificates, none added) the verifier
+                // below cannot be built. That must not stop requests which waive validation anyway.
+                if self.accept_invalid_certs && root_store.is_empty() && self.additional_certs.is_empty() {
+                    let builder = ClientConfig::builder();
+                    let algorithms = builder.crypto_provider().signature_verification_algorithms;
+                    let config: Arc<ClientConfig> = builder
+                        .dangerous()
+                        .with_custom_certificate_verifier(Arc::new(NoAnchorVerifier { algorithms }))
+                        .with_no_client_auth()
+                        .into();
+
+                    self.inner = Some(Arc::clone(&config));
+
+                    return Ok(config);
+                }
+
                 for cert in self.additional_certs.iter().cloned() {
                     root_store.add(cert)?;
                 }
@@ -179,6 +195,48 @@ where
 {
     fn fmt(&self, f: &mut fmt::Formatter) -> fmt::Result {
         write!(f, "TlsStream[rustls]")
+    }
+}
+
+/// Used when certificate validation is waived and there is no trust anchor to validate against:
+/// any certificate is accepted, the handshake signatures are still verified.
+#[derive(Debug)]
+struct NoAnchorVerifier {
+    algorithms: rustls::crypto::WebPkiSupportedAlgorithms,
+}
+
+impl ServerCertVerifier for NoAnchorVerifier {
+    fn verify_server_cert(
+        &self,
+        _end_entity: &CertificateDer,
+        _intermediates: &[CertificateDer],
+        _server_name: &ServerName,
+        _ocsp_response: &[u8],
+        _now: UnixTime,
+    ) -> std::result::Result<ServerCertVerified, rustls::Error> {
+        Ok(ServerCertVerified::assertion())
+    }
+
+    fn verify_tls12_signature(
+        &self,
+        message: &[u8],
+        cert: &CertificateDer<'_>,
+        dss: &DigitallySignedStruct,
+    ) -> std::result::Result<HandshakeSignatureValid, rustls::Error> {
+        rustls::crypto::verify_tls12_signature(message, cert, dss, &self.algorithms)
+    }
+
+    fn verify_tls13_signature(
+        &self,
+        message: &[u8],
+        cert: &CertificateDer<'_>,
+        dss: &DigitallySignedStruct,
+    ) -> std::result::Result<HandshakeSignatureValid, rustls::Error> {
+        rustls::crypto::verify_tls13_signature(message, cert, dss, &self.algorithms)
+    }
+
+    fn supported_verify_schemes(&self) -> Vec<SignatureScheme> {
+        self.algorithms.supported_schemes()
     }
 }
 
